@@ -1,3 +1,5 @@
+import re
+
 from arpeggio import EOF, Optional, PTNodeVisitor, visit_parse_tree
 from arpeggio import RegExMatch as _
 from arpeggio import ZeroOrMore as ArpeggioZeroOrMore
@@ -148,7 +150,10 @@ class RRELNavigation(RRELBase):
     def __repr__(self):
         if self.fixed_name is not None:
             assert not self.consume_name
-            return "'" + self.fixed_name + "'~" + self.name
+            # The name is kept as written between its quotes: use the single
+            # quote unless the name can only be written in double quotes.
+            q = "'" if re.fullmatch(r"((\\')|[^'])*", self.fixed_name) else '"'
+            return q + self.fixed_name + q + "~" + self.name
         else:
             return self.name if self.consume_name else "~" + self.name
 
